@@ -116,13 +116,32 @@ Section Cell.
         best_of rest (if gt then (c, d) else cur)
     end.
 
-  Definition sample_points (lon lat : T) (resolution : Z) : list (T * T) :=
+  Fixpoint mapM_opt {A B} (f : A -> option B) (l : list A) : option (list B) :=
+    match l with
+    | [] => Some []
+    | x :: xs => y <-? f x ;; ys <-? mapM_opt f xs ;; Some (y :: ys)
+    end.
+
+  (* the 25 probe points: offsets in the tangent plane of the sphere at the point *)
+  Definition sample_points (lon lat : T) (resolution : Z) : option (list (T * T)) :=
     let hr := (1 + resolution - 2)%Z in
     let scale := z2T 50 / z2T (2 ^ hr) in
-    (lon, lat) ::
-    map (fun i => let r := (z2T i / z2T 25) * scale in
-                  (lon + o_cos OP (z2T i) * r, lat + o_sin OP (z2T i) * r))
-        (seqZ 0 25).
+    let '(theta, phi) := from_lon_lat OP lon lat in
+    let '(cx, cy, cz) := to_cartesian OP theta phi in
+    flat <-? o_ltb OP (o_abs OP cz) (lit OP 9 10) ;;
+    let '(ex0, ey0, ez0) := if flat then (o_neg OP cy, cx, z2T 0) else (z2T 0, o_neg OP cz, cy) in
+    let elen := o_sqrt OP ((ex0 * ex0 + ey0 * ey0) + ez0 * ez0) in
+    let '(ex, ey, ez) := (ex0 / elen, ey0 / elen, ez0 / elen) in
+    let '(nx, ny, nz) := (cy * ez - cz * ey, cz * ex - cx * ez, cx * ey - cy * ex) in
+    rest <-? mapM_opt (fun i =>
+                let r := ((z2T i / z2T 25) * scale) * (c2T F64_PI / z2T 180) in
+                let de := o_cos OP (z2T i) * r in
+                let dn := o_sin OP (z2T i) * r in
+                let moved := ((cx + de * ex) + dn * nx, (cy + de * ey) + dn * ny, (cz + de * ez) + dn * nz) in
+                '(t, p) <-? to_spherical OP moved ;;
+                Some (to_lon_lat OP t p))
+             (seqZ 0 25) ;;
+    Some ((lon, lat) :: rest).
 
   Definition lonlat_to_cell (lon lat : T) (resolution : Z) : option (out Z) :=
     if negb ((-1 <=? resolution) && (resolution <? MAX_RESOLUTION))%Z then Some Err else
@@ -130,7 +149,8 @@ Section Cell.
     if (resolution <? 2)%Z then
       est <-? lonlat_to_estimate lon lat resolution ;; Some (serialize est)
     else
-      r <-? probe (sample_points lon lat resolution) lon lat resolution [] [] ;;
+      samples <-? sample_points lon lat resolution ;;
+      r <-? probe samples lon lat resolution [] [] ;;
       match r with
       | inl est => Some (serialize est)
       | inr [] => Some Panic   (* cells[0] on an empty vector *)
@@ -151,12 +171,6 @@ Section Cell.
     end.
 
   (* boundary before longitude normalisation: unprojected split vertices, in pentagon order *)
-  Fixpoint mapM_opt {A B} (f : A -> option B) (l : list A) : option (list B) :=
-    match l with
-    | [] => Some []
-    | x :: xs => y <-? f x ;; ys <-? mapM_opt f xs ;; Some (y :: ys)
-    end.
-
   Definition default_segments (resolution : Z) : Z := Z.max 1 (2 ^ (Z.max (6 - resolution) 0)).
 
   Definition cell_boundary_raw (id : Z) (segments : option Z) : option (out (list (T * T))) :=
